@@ -44,6 +44,34 @@ pub open spec fn kick_post(o: VolatileState, n: VolatileState, c: String, gone: 
     &&& (!o.channels@.contains_key(c) ==> !n.channels@.contains_key(c))
 }
 
+// ---- the announcement of a KICK (C09: "announced to the remaining members and to the victim"; C04) ----
+// the relayed line `:<kicker nick!user@host> KICK <channel> <victim> :<comment or "Kicked">`
+#[verifier::opaque]
+pub open spec fn kick_line(src: Seq<char>, channel: Seq<char>, victim: Seq<char>, comment: Option<&str>) -> Seq<char> {
+    seq![':'] + src + seq![' '] + ("KICK "@ + channel + " "@ + victim + " :"@ + (if comment is Some { comment->0@ } else { "Kicked"@ }))
+}
+pub proof fn lemma_kick_line(src: Seq<char>, channel: &str, ku: &&&str, comment: Option<&str>, msg: String)
+    requires msg@ == "KICK "@ + dv::<&&str>(&channel) + " "@ + dv::<&&&&str>(&ku) + " :"@ + dv::<&&str>(&(if comment is Some { comment->0 } else { "Kicked" })),
+    ensures disp::<String>(src, msg) == kick_line(src, channel@, (***ku)@, comment),
+{
+    broadcast use display_text;
+    reveal(kick_line);
+    assert(dv::<&&str>(&channel) == channel@);
+    assert(dv::<&&&&str>(&ku) == (***ku)@);
+}
+// one victim: every member of the channel as it is after all removals (if it still exists) gets the line once, then the victim gets it
+pub open spec fn kick_announce_step(s: VolatileState, c: String, victim: String, line: Seq<char>, before: Seq<(int, Seq<char>)>, after: Seq<(int, Seq<char>)>) -> bool {
+    exists|mid: Seq<(int, Seq<char>)>|
+        #![trigger mid.push((s.users@[victim].sender.id(), line))]
+        (if s.channels@.contains_key(c) { delivered_to_members(before, mid, s, s.channels@[c].users@.dom(), line) } else { mid == before })
+        && after == mid.push((s.users@[victim].sender.id(), line))
+}
+// the victims in the order they were kicked: logs[i] -> logs[i+1] is the announcement of victims[i]
+pub open spec fn kick_announced(s: VolatileState, c: String, src: Seq<char>, channel: Seq<char>, comment: Option<&str>, victims: Seq<Seq<char>>, logs: Seq<Seq<(int, Seq<char>)>>) -> bool {
+    &&& logs.len() == victims.len() + 1
+    &&& forall|i: int| 0 <= i < victims.len() ==> #[trigger] kick_announce_step(s, c, string_of(victims[i]), kick_line(src, channel, victims[i], comment), logs[i], logs[i + 1])
+}
+
 pub open spec fn in_kicked(kicked: Seq<&&str>, v: Seq<char>) -> bool {
     exists|j: int| 0 <= j < kicked.len() && (#[trigger] kicked[j])@ == v
 }
@@ -174,7 +202,7 @@ pub proof fn lemma_kick_wf(o: VolatileState, n: VolatileState, c: String, gone: 
 }
 
 impl MainState {
-//@fn state/channel_cmds.rs MainState::process_kick unit=kick props=C09,C05,C04 rules=R1,R2,R6
+//@fn state/channel_cmds.rs MainState::process_kick unit=kick props=C09,C05,C04 rules=R1,R2,R6,R23
 //@attr #[verifier::loop_isolation(false)]
 //@spec
         requires
@@ -191,6 +219,13 @@ impl MainState {
             conn_ok(*final(conn_state), *final(state)), // @prop C09
             kick_post(*old(state), *final(state), sk(channel), // @prop C09,C04
                 |v: String| kicked_p(*old(state), my_nick(*old(conn_state)), sk(channel), kick_users@, v)),
+            // every kick is announced: to the members that remain and to the victim, one copy each, nobody else
+            r is Ok ==> exists|victims: Seq<Seq<char>>, logs: Seq<Seq<(int, Seq<char>)>>|
+                #![trigger kick_announced(*final(state), sk(channel), old(conn_state).user_state.source@, channel@, comment, victims, logs)]
+                victims.no_duplicates()
+                && (forall|v: String| victims.contains(v@) <==> kicked_p(*old(state), my_nick(*old(conn_state)), sk(channel), kick_users@, v))
+                && kick_announced(*final(state), sk(channel), old(conn_state).user_state.source@, channel@, comment, victims, logs)
+                && logs[0] == old(outbox).log && logs[victims.len() as int] == final(outbox).log, // @prop C09,C04
 //@ascribe kicked Vec<&&'a str>
 //@open
         broadcast use group_hash_axioms, bridge, string_eq, lemma_cover_is_exact;
@@ -282,11 +317,35 @@ impl MainState {
                 lemma_kick_wf(*old(state), *state, ck, gone);
             }
             let ghost fin = *state;
+            let ghost src = conn_state.user_state.source@;
+            let ghost mut vs: Seq<Seq<char>> = Seq::empty();
+            let ghost mut logs: Seq<Seq<(int, Seq<char>)>> = seq![outbox.log];
+            proof { assert(outbox.log == old(outbox).log); }
 //@loop ~for ku in &kicked #2 iter=it3
                 invariant
                     *state == fin, state_wf(fin), kicked@ == kk,
                     it3.seq().len() == kk.len(),
                     forall|i: int| 0 <= i < it3.seq().len() ==> it3.seq()[i] == &kk[i],
+                    conn_same_but_stream(*conn_state, *old(conn_state)), src == old(conn_state).user_state.source@,
+                    vs.len() == it3.index@,
+                    forall|i: int| 0 <= i < vs.len() ==> #[trigger] vs[i] == (**kk[i])@,
+                    kick_announced(fin, ck, src, channel@, comment, vs, logs), // @prop C09,C04
+                    logs[0] == old(outbox).log, logs[vs.len() as int] == outbox.log, // @prop C09,C04
+//@after ~for ku in &kicked #2
+                let ghost j3 = it3.index@ as int;
+                let ghost log_a = outbox.log;
+                let ghost mut order: Seq<String> = Seq::empty();
+                proof { assert(ku == &kk[j3]); }
+//@after ~let kick_msg = verif_fmt3
+                let ghost line = kick_line(src, channel@, (***ku)@, comment);
+                proof {
+                    assert(kick_msg@ == "KICK "@ + dv::<&&str>(&channel) + " "@ + dv::<&&&&str>(&ku) + " :"@ + dv::<&&str>(&(if comment is Some { comment->0 } else { "Kicked" }))) by { // @prop C09,C13
+                        reveal(fmt3_text); reveal_strlit("");
+                        assert(""@ =~= Seq::<char>::empty());
+                        assert(kick_msg@ =~= "KICK "@ + dv::<&&str>(&channel) + " "@ + dv::<&&&&str>(&ku) + " :"@ + dv::<&&str>(&(if comment is Some { comment->0 } else { "Kicked" }))); // @prop C09,C13
+                    }
+                    lemma_kick_line(src, channel, ku, comment, kick_msg);
+                }
 //@loop ~for nick in chanobj\.users\.keys\(\) iter=it4
                         invariant
                             *state == fin, state_wf(fin),
@@ -294,19 +353,62 @@ impl MainState {
                             it4.seq().no_duplicates(),
                             it4.seq().len() == chanobj.users@.dom().len(),
                             forall|k: String| chanobj.users@.dom().contains(k) ==> exists|i: int| 0 <= i < it4.seq().len() && *#[trigger] it4.seq()[i] == k,
+                            order.len() == it4.index@,
+                            order.no_duplicates(),
+                            forall|a: int, l: int| #![trigger order[a], it4.seq()[l]] 0 <= a < order.len() && order.len() <= l < it4.seq().len() ==> order[a] != *it4.seq()[l],
+                            forall|i: int| 0 <= i < order.len() ==> chanobj.users@.dom().contains(#[trigger] order[i]),
+                            forall|a: int| 0 <= a < it4.index@ ==> order[a] == *#[trigger] it4.seq()[a],
+                            line == disp::<String>(src, kick_msg),
+                            outbox.log == log_a + order.map_values(|n: String| (fin.users@[n].sender.id(), line)), // @prop C09,C04
 //@after ~for nick in chanobj\.users\.keys\(\)
                         proof {
                             assert(chanobj.users@.dom().contains(*nick));
                             assert(member(fin, *nick, ck));
                         }
-//@before ~// and send to kicked user
+//@endloop ~for nick in chanobj\.users\.keys\(\)
+                        proof {
+                            assert forall|a: int| 0 <= a < order.len() implies order[a] != *nick by { }
+                            let f = |n: String| (fin.users@[n].sender.id(), line);
+                            assert(order.push(*nick).map_values(f) =~= order.map_values(f).push(f(*nick)));
+                            order = order.push(*nick);
+                        }
+//@afterloop ~for nick in chanobj\.users\.keys\(\)
+                    proof {
+                        assert(order.len() == chanobj.users@.dom().len());
+                        lemma_nodup_subset_full(order, chanobj.users@.dom());
+                        assert(delivered_to_members(log_a, outbox.log, fin, fin.channels@[ck].users@.dom(), line));
+                    }
+//@afterblock ~if let Some\(chanobj\) = state\.channels\.get\(channel\) \{ #2
+                let ghost mid = outbox.log;
                 proof {
-                    let j3 = it3.index@ as int;
-                    assert(ku == &kk[j3]);
                     assert(gone(sk(*kk[j3])));
                     assert(member(*old(state), sk(*kk[j3]), ck));
                     assert(old(state).users@.contains_key(sk(*kk[j3])));
+                    assert(if fin.channels@.contains_key(ck) { delivered_to_members(log_a, mid, fin, fin.channels@[ck].users@.dom(), line) } else { mid == log_a });
                 }
+//@endloop ~for ku in &kicked #2
+                proof {
+                    let v = (***ku)@;
+                    assert(string_of(v) == sk(*kk[j3]));
+                    assert(outbox.log == mid.push((fin.users@[string_of(v)].sender.id(), line))); // @prop C09,C04
+                    assert(kick_announce_step(fin, ck, string_of(v), line, log_a, outbox.log)); // @prop C09,C04
+                    let vs0 = vs; let logs0 = logs;
+                    vs = vs0.push(v);
+                    logs = logs0.push(outbox.log);
+                    assert forall|i: int| 0 <= i < vs.len() implies #[trigger] kick_announce_step(fin, ck, string_of(vs[i]), kick_line(src, channel@, vs[i], comment), logs[i], logs[i + 1]) by {
+                        if i < vs0.len() { assert(kick_announce_step(fin, ck, string_of(vs0[i]), kick_line(src, channel@, vs0[i], comment), logs0[i], logs0[i + 1])); }
+                    }
+                }
+//@afterloop ~for ku in &kicked #2
+        proof {
+            // the victims announced are exactly the users removed, each once
+            assert(vs.len() == kk.len());
+            assert forall|a: int, b: int| 0 <= a < b < vs.len() implies vs[a] != vs[b] by { assert(kk[a]@ != kk[b]@); }
+            assert forall|v: String| vs.contains(v@) <==> gone(v) by {
+                if vs.contains(v@) { let t = choose|t: int| 0 <= t < vs.len() && vs[t] == v@; assert(gone(sk(*kk[t]))); assert(string_of(v@) == v); }
+                if gone(v) { assert(in_kicked(kk, v@)); let t = choose|t: int| 0 <= t < kk.len() && (#[trigger] kk[t])@ == v@; assert(vs[t] == v@); }
+            }
+        }
 //@end
 }
 // kick_post depends on `gone` only through its extension (proved)
